@@ -47,6 +47,10 @@ namespace Givaro {
             while (! _seed) {
                 _seed = (uint64_t)BaseTimer::seed();
             }
+            // The generator lives on [1, modulus-1]: 0 is a fixed point of
+            // x -> a*x mod m and a larger state overflows the signed product
+            // in operator().  Seeds that are already in that range are unchanged.
+            _seed = 1_ui64 + (_seed - 1_ui64) % (_GIVRAN_MODULO_ - 1_ui64);
         }
 
         GivRandom(const GivRandom& R) :
